@@ -632,8 +632,8 @@ func blockPos(b *ssa.BasicBlock) token.Pos {
 func returnsOf(fn *ssa.Function) []*ssa.Return {
 	var out []*ssa.Return
 	for _, b := range fn.Blocks {
-		if len(b.Instrs) == 0 {
-			continue
+		if len(b.Instrs) == 0 || b == fn.Recover {
+			continue // the recover block is entered only by a recovered panic
 		}
 		if r, ok := b.Instrs[len(b.Instrs)-1].(*ssa.Return); ok {
 			out = append(out, r)
